@@ -6,7 +6,10 @@ package udp
 // makes ReadTXTimestamp behave as if the kernel had not delivered the transmit
 // timestamp within the poll timeout (the timestamp stays in the error queue).
 
-import "sync/atomic"
+import (
+	"sync/atomic"
+	"time"
+)
 
 var verifLateTXTimestamps atomic.Int32
 
@@ -29,6 +32,8 @@ func verifLateTXTimestamp() bool {
 			return false
 		}
 		if verifLateTXTimestamps.CompareAndSwap(n, n-1) {
+			// what ReadTXTimestamp spends polling before it gives up
+			time.Sleep(time.Millisecond)
 			return true
 		}
 	}
